@@ -33,9 +33,9 @@ CLAIMED = {
             'enabled mutator on the final output is enumerated with ddSMT\'s own Producer and the command is run on each.',
             'Trusted: Coq kernel, launcher wrappers; assumes a deterministic command and that the pool delivers one result per generated task.', 'DESIGN.md section 4/10, C02'),
     'C05': ('Coq proof of chain / no-stale-adoption / file-is-last invariants over all interleavings of the scheduler model + history analysis of real parallel runs',
-            'no_stale, chain, written_was_checked, file_is_last for every reachable state of Model/SchedHier.v; tie: recorded histories of real runs (hierarchical, hybrid, ddmin; -j 1..4; '
+            'no_stale, chain, written_was_checked, file_is_last for every reachable state of Model/SchedHier.v and d_no_stale, d_chain, d_file_is_last for Model/SchedDdmin.v; tie: recorded histories of real runs (hierarchical, hybrid, ddmin; -j 1..4; '
             'injected delays) are checked: every write preceded by an accepted test of the same tokens, adopting sweep/task based on the current input, file = last element.',
-            'Trusted: Coq kernel, launcher wrappers (module-level monkey patching), token digests. The ddmin loop is covered by history analysis only (model: see DESIGN).', 'DESIGN.md section 4/10, C05'),
+            'Trusted: Coq kernel, launcher wrappers (module-level monkey patching), token digests. Real hierarchical histories are replayed in the extracted model; ddmin histories are checked by history analysis (adopted result computed against the current input).', 'DESIGN.md section 4/10, C05'),
     'C18': ('Coq proof that one-worker (FIFO) executions of the scheduler model have prefix-comparable write histories (simulation by a deterministic sequential semantics) + repeated real -j1 runs',
             'seq_deterministic / seq_deterministic_final / seq_refines about Model/SchedHier.v, parametric in hash functions; tie: each job is run three times under different PYTHONHASHSEED and delays; '
             'write sequences and output bytes must coincide. Known finding F18 (fresh-variable names from node ids) is recognised and reported as KNOWN-FINDING.',
@@ -60,18 +60,18 @@ CLAIMED = {
             'no_infinite_run / sweep_progress / adoptions_bounded about Model/SchedHier.v; subst_refines and eq_sm_refines give explicit fuel bounds for the only unbounded loops reachable from mutators. '
             'The global no-cycle claim is false of the code (FAQ) and is searched, not proved: every proposal of every mutator on generated inputs (no-ops, hangs), second/third-level proposals (2-/3-cycles), real runs with --check-loops under a watchdog.',
             'PARTIAL: absence of cycles is a bounded search, not a theorem; the decreasing measure is a hypothesis of the termination theorem. Known cycles are listed in known_findings.json.', 'DESIGN.md section 4, C03'),
-    'C15': ('Coq proof that well-formed trees round-trip through every renderer (C07) and that substitution inserts replacements as given (C11) + exhaustive application of every proposal of all 53 mutators on generated and targeted inputs',
-            'the closure argument is composed from parse_w_* (C07) and subst_tokens_closed (C11); per-mutator closure is established by correspondence: every proposal of every mutator (all 53 exercised, targeted instances per class) is applied, rendered, '
+    'C15': ('Coq proof of the generic closure theorem (closed_apply, closed_apply_simp: C07 o C11) and of per-rewrite closure for the 15 modelled rewrites + exhaustive application of every proposal of all 53 mutators on generated and targeted inputs',
+            'closed_apply: under NoDup ids and well-formed replacement values the substituted list (and apply_simp with declarations) is well formed and parses back from all four renderings; rw_*_wf for the 15 modelled rewrites; for all 53 mutators closure is also established by correspondence: every proposal of every mutator (all 53 exercised, targeted instances per class) is applied, rendered, '
             're-parsed and compared with the tree in memory; declarations must be fresh and precede their first use.',
-            'PARTIAL: per-mutator M_closed theorems exist only for the mutators modelled in Coq; for the others the claim rests on the exhaustive-proposal correspondence.', 'DESIGN.md section 4, C15'),
-    'C16': ('independent typing function in Coq (Spec/Typing.v, extracted) as oracle + get_sort/get_bv_width queried on every typed subterm of generated well-sorted scripts and every replacement of the sort-based mutators re-typed',
+            'PARTIAL: per-mutator closure theorems exist for the 15 mutators modelled in Coq (Model/Rewrites.v); for the other 38 the claim rests on the generic theorem plus the exhaustive-proposal correspondence (replacement values well formed).', 'DESIGN.md section 4, C15'),
+    'C16': ('Coq proof that the modelled sort oracle is sound w.r.t. an independent typing function (get_sort_sound, bv_width_sound, subterm_sound; operator tables regenerated from smtlib.py and checked by computation) + model/implementation correspondence on every typed subterm; replacements re-typed',
             'Spec/Typing.type_of is an executable SMT-LIB typing function written independently of the code; it validates the typed generator and re-types every replacement proposed by Constants / ReplaceByVariable / IntroduceFreshVariable; '
             'get_sort and get_bv_width are compared with the actual sort on every subterm (all theories).',
-            'PARTIAL: the soundness theorem get_sort_sound about a Gallina model of _get_sort_aux is in progress (see DESIGN.md); until it lands the level is specification-based correspondence.', 'DESIGN.md section 4, C16'),
-    'C17': ('typing function in Coq as sort oracle + equivalence of every (term, replacement) pair of the 21 identity mutators on targeted instances (z3 as independent evaluator for the search)',
+            'Hypotheses of the theorems (each shown necessary by an Example): declared symbols recorded with their sorts (lookup_agrees, proved for collect_decls), literals and oracle operator names not re-declared (ops_unbound: known finding F29), binders bound once. The structural get_sort cache is not modelled (exercised by correspondence).', 'DESIGN.md section 4, C16'),
+    'C17': ('Coq proofs of value and sort preservation (16 + 15 theorems over Spec/Semantics.eval and Spec/Typing.type_of) for the 15 modelled rewrites + rewrite-model/implementation correspondence on every node + evaluator and z3 cross-check of every (term, replacement) pair of the 21 listed mutators',
             'for each mutator of the property\'s list, instances over all widths/indices/notations (incl. formals named like symbols of the actuals); replacements are re-typed by the extracted Spec/Typing.type_of and checked equivalent. '
             'Known finding F19 (variable capture in inlining) is reported as KNOWN-FINDING.',
-            'PARTIAL: per-rewrite identity theorems over Spec/Semantics.v are in progress (see DESIGN.md); z3 4.8.12 is trusted only for finding counterexamples.', 'DESIGN.md section 4, C17'),
+            'PARTIAL: theorems cover the 15 rewrites modelled in Model/Rewrites.v (Core/Ints/BV); BoolNegateQuantifier, InlineDefinedFuns, LetSubstitution, BVMergeReducedBW, RemoveDatatypeIdentity, FPShortSort are covered by the evaluator/z3 cross-check only. z3 4.8.12 is trusted only for finding counterexamples. n-ary forms are refuted by Examples (outside the documented binary form).', 'DESIGN.md section 4, C17'),
 }
 ALL = ['C%02d' % i for i in range(1, 19)]
 NOT_APPLICABLE = {p: PARTIAL for p in ALL if p not in CLAIMED}
